@@ -859,7 +859,7 @@ func (r *runner) oracle(c *core.Ctx, root *node, used []int, witness string) {
 		case o.lastDone != nil && !r.completedWithErr(o.lastDone):
 			c.Fail(key("error-lost-last-finisher-ok"), fmt.Sprintf("%s: a stage failed, the stage that completed last (#%d) succeeded, callback argument is nil", what, o.lastDone.id))
 		default:
-			c.Fail("error-lost-last-finisher-failed", what+": the stage that completed last had failed itself, callback argument is nil")
+			c.Fail("error-lost-last-finisher-failed", fmt.Sprintf("%s: a stage had failed (the last Complete() before the callback was stage #%d's, which failed itself), callback argument is nil", what, o.lastDone.id))
 		}
 	}
 }
